@@ -826,3 +826,14 @@ Proof.
   intros e str o a NZ H R. destruct (run_Final e str o a NZ H) as [(A & B & C & D)|(i & E & _)]; [auto|].
   unfold result in R. rewrite E in R. discriminate.
 Qed.
+
+(* whatever the allocator does: a string that IS returned is the expansion (NULL or the right answer) *)
+Lemma expand_result_is_expansion_l : forall e str o a d, nz str -> expand_run e str o = Ok a ->
+  result a = Some d -> d = expand e 0 None str.
+Proof.
+  intros e str o a d NZ H R.
+  destruct (has_failed (s_log a)) eqn:HF.
+  - destruct (Final_failed _ _ _ (run_Final e str o a NZ H) HF) as (RN & _). congruence.
+  - destruct (Final_not_failed _ _ _ (run_Final e str o a NZ H) HF) as (i & E & _).
+    unfold result in R. rewrite E in R. congruence.
+Qed.
